@@ -332,6 +332,8 @@ def check_slots(res, s, slots, vops, expected_abs, what):
                             'for integer element types)' % (show(ref, names).replace('.#', '.<k>'),
                                                            show(expected_abs, names).replace('.#', '.<k>')), 'reciprocal-multiply')
                 return
+            if 'applies `fabs` where `abs`' in desc:
+                desc += ' (std::fabs converts integer components to double: 64-bit values beyond 2^53 lose their low bits)'
             msg = 'the per-component operation is `%s` but the name and signature denote `%s`: %s' % (
                 show(ref, names).replace('.#', '.<k>'), show(expected_abs, names).replace('.#', '.<k>'), desc.replace('.#', '.<k>'))
             if dec:
@@ -1322,6 +1324,8 @@ def classify(tu, f, s):
         return 'comparison', lambda res, s, v: fam_compare(res, s, v, spec_eq, 'operator==')
     if name == 'operator!=' and kinds == ['vec', 'vec']:
         return 'comparison', lambda res, s, v: fam_compare(res, s, v, spec_ne, 'operator!=')
+    if name == 'operator<' and kinds == ['vec', 'vec'] and isinstance(operand_n(s), int):
+        return 'comparison', lambda res, s, v: fam_compare(res, s, v, spec_lex, 'operator< (lexicographic, as std::less)')
     if name == 'anyLessThan' and kinds == ['vec', 'vec']:
         return 'comparison', lambda res, s, v: fam_compare(res, s, v, spec_anylt, 'anyLessThan')
     if name == 'dot' and kinds == ['vec', 'vec']:
@@ -1343,7 +1347,26 @@ def classify(tu, f, s):
         return 'fold', generic_fold
     if name == 'length' and kinds == ['vec']:
         e = ('call', 'sqrt', (('call', 'dot', (('p', 0), ('p', 0))),))
-        return 'derived function', lambda res, s, v: fam_term(res, s, v, e, 'length')
+
+        def length_rule(res, s, v):
+            if single_return(v) is None:
+                # multi-statement body: the "overflow-safe" rescaling v / max|v_k| is recognisably wrong at infinity
+                hits = []
+
+                def scan(x):
+                    if x[0] == 'b' and x[1] in ('/', '*') and x[2] == ('p', 0):
+                        cs = calls_in(x[3])
+                        if x[1] == '/' and ('reduce_max' in cs or 'max' in cs) and 'abs' in cs:
+                            hits.append(x)
+                    return x
+                map_terms(tuple(v.body()), scan)
+                if hits:
+                    res.bad(R3, 'length rescales the vector by its largest magnitude (`%s`) before squaring: for an infinite component '
+                                'this is inf / inf = NaN, so length returns NaN where sqrt(dot(v, v)) returns +inf (the quantifier '
+                                'includes infinities); the definition is sqrt(dot(v, v))' % show(hits[0], s.names)[:120], 'rescaled-by-max')
+                    return
+            fam_term(res, s, v, e, 'length')
+        return 'derived function', length_rule
     if name == 'normalize' and kinds == ['vec']:
         e = ('b', '*', ('p', 0), ('call', 'rsqrt', (('call', 'dot', (('p', 0), ('p', 0))),)))
         return 'derived function', lambda res, s, v: fam_term(res, s, v, e, 'normalize')
@@ -1918,6 +1941,55 @@ R6 = 'R-C04-6'
 R7 = 'R-C04-7'
 
 
+RKMATH_H = 'rkcommon/math/rkmath.h'
+INTEGRAL = {'char', 'signed char', 'unsigned char', 'short', 'unsigned short', 'int', 'unsigned int', 'long', 'unsigned long',
+            'long long', 'unsigned long long'}
+
+
+def check_lerp(ctx, tu):
+    """R-C04-3 for rkmath.h lerp(factor, a, b), the interpolation applied to vec_t operands: (1 - factor) * a + factor * b"""
+    n = 0
+    for f in tu.functions.values():
+        if tu.fn_file(f) != RKMATH_H or (tu.node(f['id']) or {}).get('name') != 'lerp' or len(f['params']) != 3:
+            continue
+        v = FnView(tu, f)
+        names = [p['name'] or 'arg%d' % i for i, p in enumerate(f['params'])]
+        inst = '%slerp %s' % ('' if f['dep'] else '[typed] ', f['fty'])
+        loc = tu.fn_loc(f)
+        key = '%s|%s|lerp(factor,a,b)|' % (R3, RKMATH_H)
+        t = single_return(v)
+        n += 1
+        if t is None or unknowns(t):
+            ctx.undecided(R3, inst, 'lerp: body is not a single understood return', loc)
+            continue
+        F, A_, B_ = ('p', 0), ('p', 1), ('p', 2)
+        t = unwrap_vec(strip_casts(t, pred=lambda ty: True))
+        exp = ('b', '+', ('b', '*', ('b', '-', ('lit', __import__('fractions').Fraction(1)), F), A_), ('b', '*', F, B_))
+        pa, pe = poly(t, names=names), poly(exp, names=names)
+        if not pa.atoms() <= pe.atoms():
+            ctx.undecided(R3, inst, 'lerp: terms outside the polynomial fragment: %s' % show(t, names), loc)
+            continue
+        if pa != pe:
+            ctx.violation(R3, inst, 'lerp computes `%r`, the definition is `%r`' % (pa, pe), loc, key=key + 'definition')
+            continue
+        diff = []
+        map_terms(t, lambda x: (diff.append(x), x)[1] if (x[0] == 'b' and x[1] == '-' and {x[2], x[3]} == {A_, B_}) else x)
+        elem = None
+        if not f['dep']:
+            sh = vecshape(f['params'][1]['ct'])
+            elem = sh['elem'] if sh else tclean(f['params'][1]['ct'])
+        if diff and (f['dep'] or elem in INTEGRAL):
+            ctx.violation(R3, inst, 'lerp forms the difference of its operands `%s` in the element type before scaling: for unsigned '
+                          'elements it wraps whenever the second value is smaller (lerp(0.5f, vec2ui(10), vec2ui(4)) is not 7), and '
+                          'for signed elements it overflows although neither operand nor the result does; the definition scales both '
+                          'operands, (1 - factor) * a + factor * b, in floating point%s' % (
+                              show(diff[0], names), '' if f['dep'] else ' (element type %s)' % elem), loc, key=key + 'operand-difference')
+            continue
+        ctx.ok(R3, inst, 'lerp = (1 - factor) * a + factor * b (polynomial normal form)%s' % (
+            '; difference form is exact enough for floating-point element type %s' % elem if diff else ''), loc)
+    return n
+
+
 def check_driver_resolution(ctx, tu):
     """R-C04-7: in the instantiation driver every operator written on vec_t operands must resolve to an overload of vec.h.  A
     built-in operator applied after the implicit vec_t -> T* conversion (pointer comparison / pointer arithmetic) means the overload
@@ -1991,6 +2063,9 @@ def run(ctx):
         fams, fams_typed, uncl, n_pat, n_typed, covered, by_loc = analyse(ctx, tu, label, ir)
         nl = check_layout(ctx, tu)
         nres = check_driver_resolution(ctx, tu)
+        nlerp = check_lerp(ctx, tu)
+        if i == 0:
+            ctx.floor(R3, nlerp, 3, 'lerp pattern + typed instantiations on vec_t operands in the driver')
         if i == 0:
             ctx.floor(R7, nres, 500, 'operator uses on vec_t operands in drivers/c04_vec.cpp')
             total = sum(fams.values()) + len(uncl)
